@@ -62,9 +62,11 @@ def portable(ctx):
                  and len(t["args"]) > 1] if True else []
     same = any(S.operand(t["args"][1]) == idx_cost for b, t in chk_reads)
     pos = strip_casts(idx_cost)
-    okpos = pos[0] == "call" and short(pos[1]) == "bitxor"
+    okpos = (pos[0] == "call" and short(pos[1]) == "bitxor" and len(pos[2]) == 2) or \
+        (pos[0] == "binop" and pos[1] == "BitXor")
     if okpos:
-        a0, a1 = strip_casts(pos[2][0]), strip_casts(pos[2][1])
+        xa, xb = (pos[2][0], pos[2][1]) if pos[0] == "call" else (pos[2], pos[3])
+        a0, a1 = strip_casts(xa), strip_casts(xb)
         okpos = (a0[0] == "ap" and a0[1].proj[:2] == ("bases", "[]")) and \
             (a1[0] == "call" and short(a1[1]) == "get" and a1[2][0] == ("ap", AP(("arg", 3)))
              or a1 == ("ap", AP(("arg", 3), ("0",))))
